@@ -218,6 +218,16 @@ func TestMonitorsFireOnDoctoredObservations(t *testing.T) {
 			r := row(post, "BatchBalance", func(r chain.Row) bool { return isAddr(r, "address", "3") })
 			r["tradable_amount"], r["retired_amount"] = "0", "10"
 		}},
+		{"bid in another denom than the order's market", "buy", "C07/bid-denom!=ask-denom", func(pre, _ *chain.State) {
+			row(pre, "Market", nil)["bank_denom"] = "uatom"
+		}},
+		{"seller paid in the wrong denom", "buy", "C03/seller-paid-in-wrong-denom", func(_, post *chain.State) {
+			post.Balances[0].Coins["stake"] = "999980000000"
+			post.Balances[0].Coins["uatom"] = "1000000010000"
+		}},
+		{"coins move in a foreign denom", "buy", "C07/coin-movement-in-foreign-denom", func(_, post *chain.State) {
+			post.Balances[4].Coins["uregen"] = "1000000000001"
+		}},
 		{"bid below ask", "buy", "C07/bid<ask", func(pre, _ *chain.State) {
 			row(pre, "SellOrder", nil)["ask_amount"] = "1001"
 		}},
